@@ -320,3 +320,14 @@ Definition core_ok (cols C skip : nat) (Y : pt3) (measured : option (list (list 
   | Some m => bmat_eqb (map (skipn skip) (core_fp cols C Y)) (map (skipn skip) m)
   | None => true
   end.
+
+(* ---------------- C14: ghost batch norm call sizes; C15: wide causal masks ---------------- *)
+Definition ghost_sizes_ok (vbs n : nat) (measured : option (list nat)) : bool :=
+  match measured with Some m => nats_eqb (ghost_call_sizes vbs n) m | None => true end.
+
+(* probes : [(perturbed input column c, for every output column whether it changed)] on an n-column ExcelFormerConv *)
+Definition wide_mask_ok (n : nat) (probes : list (nat * list bool)) : bool :=
+  forallb (fun p => bvec_eqb (causal_row (ids_int64 n) n (fst p)) (snd p)) probes.
+(* the refutation witness replayed: for a probed column >= 128 the measured row is NOT what an int8 buffer gives *)
+Definition wide_mask_not_int8 (n : nat) (probes : list (nat * list bool)) : bool :=
+  forallb (fun p => (fst p <? 128) || negb (bvec_eqb (causal_row (ids_int8 n) n (fst p)) (snd p))) probes.
